@@ -43,6 +43,7 @@ func checkC08(r *Run) {
 	r.cur = "J"
 	ruleDurationArithmetic(r, pj, "DUR")
 	ruleInterfaceThroughMarshal(r, pj, "HOOK")
+	ruleNetText(r, pj) // the JSON side renders addresses with the net package's String(), the text the decoder prints
 	r.cur = "B"
 	ruleDurationArithmetic(r, pb, "DUR")
 	ruleInterfaceThroughMarshal(r, pb, "HOOK")
